@@ -1015,10 +1015,15 @@ class PowInt(Contract):
 
     def configs(self, tier):
         ks = (0, 1, 2, 3, 5, -1) if tier == "quick" else (0, 1, 2, 3, 4, 5, 8, -1, -2)
-        return [dict(mode=m, k=k, **({"raises_only": True} if k < 0 else {})) for m in MODES for k in ks]
+        out = [dict(mode=m, k=k, **({"raises_only": True} if k < 0 else {})) for m in MODES for k in ks]
+        # three-argument pow(x, k, m) is refused (a reduced power is not the value of any wire expression)
+        out += [dict(mode=m, k=k, mod=5, raises_only=True) for m in ("plain", "ie") for k in (0, 2)]
+        return out
 
     def setup(self, c, cfg):
         apply_mode(c, cfg["mode"])
+        if "mod" in cfg:
+            return c.LinComb.__pow__, (c.operand("x"), cfg["k"], cfg["mod"]), {}
         return c.LinComb.__pow__, (c.operand("x"), cfg["k"]), {}
 
     def use_stub(self, c, x, k, mod=None):
